@@ -75,8 +75,8 @@ CLAIMED = {
  "C14": dict(
   level="other",
   technique="static analysis: SSA dominator conditions, numeric abstract interpretation and bit provenance for the integer clauses of the REMB codec",
-  text="The numeric core of this property - decode = mantissa x 2^exponent for all 2^24 pairs, encode = largest representable value not above x, monotone, saturating - is IEEE-754 float32 arithmetic and is NOT decided by this check (no engine here models floating point). Decided are only its integer/structural clauses, each a necessary condition: NEG - every nil-error return of MarshalTo is dominated by `bitrate < 0` being false for the receiver's (clamped) bitrate, so a negative bitrate is rejected; EXP - the exponent shifted into octet 17 is entailed within 0..63 at every nil-error return; PACK - the mantissa bits OR-ed into octet 17 next to the exponent are entailed <= 3 (an upper bound of the float bitrate learned from the exit of the normalisation loop is carried through math.Floor into the integer mantissa - the only floating-point fact the engine tracks; NaN is outside the model); CNT-ENC - octet 16 is the low 8 bits of len(SSRCs) and len(SSRCs) <= 255 at every nil-error return; CNT-DEC - Unmarshal returns nil only with len(p.SSRCs) = buf[16]. A reader must not take a pass here as evidence about bitrate values.",
-  note="Trusted: go/ssa, checker/num, checker/bits. Five obligations.",
+  text="The numeric core of this property - decode = mantissa x 2^exponent for all 2^24 pairs, encode = largest representable value not above x, monotone, saturating - is IEEE-754 float32 arithmetic and is NOT decided by this check (no engine here models floating point). Decided are only its integer/structural clauses, each a necessary condition: NEG - every nil-error return of MarshalTo is dominated by `bitrate < 0` being false for the receiver's (clamped) bitrate, so a negative bitrate is rejected; EXP - the exponent shifted into octet 17 is entailed within 0..63 at every nil-error return; PACK - the mantissa bits OR-ed into octet 17 next to the exponent are entailed <= 3 (an upper bound of the float bitrate learned from the exit of the normalisation loop is carried through math.Floor into the integer mantissa - the only floating-point fact the engine tracks; NaN is outside the model); NORM - the decode-side loop that left-normalises the mantissa can be left only when bit 23 (the implicit leading bit) is set; CNT-ENC - octet 16 is the low 8 bits of len(SSRCs) and len(SSRCs) <= 255 at every nil-error return; CNT-DEC - Unmarshal returns nil only with len(p.SSRCs) = buf[16]. A reader must not take a pass here as evidence about bitrate values.",
+  note="Trusted: go/ssa, checker/num, checker/bits. Six obligations.",
   design="DESIGN.md §8 (C14 as built)"),
  "C08": dict(
   level="other",
